@@ -26,6 +26,15 @@ check("C18", "exploration",
       "Clean-path half: seeded FIFO constant-delay runs (raw cores under both drivers, and sessions) that satisfy the stated preconditions; every data sn must appear exactly once on the wire and the retransmission counters stay 0. Bound half: the RTO is read after every step of every run of every stratum, including an adversary acknowledging with forged, wrapped and delayed timestamps, and must lie in [30|100, 60000].",
       TB, "deterministic simulation with fault injection: precondition-satisfying clean-path search with exactly-once wire oracle; RTO-bound invariant under forged ack timing", "DESIGN.md 8/C18")
 
+check("C07", "fault_enumeration",
+      "For every (dataShards, parityShards) with d+p <= 5 (quick) / <= 6 (thorough), 5 payload-size vectors, 3 placements in the id space (first group, middle, last group before the wrap value) and 3 duplicate modes, ALL subsets of a group's packets x ALL arrival orders are fed to the real decoder (packets from the real encoder) and checked against a group-set reference model: exact reconstruction of exactly the missing data packets at the first moment d distinct packets have arrived, and nothing but original data packets ever returned. Larger ratios (to d+p=255), interleaved groups, duplicates, reordering, parity skipping, ids beyond 2^31 and across the wrap, and whole sessions with parity-aware targeted loss are sampled.",
+      TB + " The enumeration is complete for the small-group space stated; everything beyond it is sampled.",
+      "deterministic simulation with fault injection: exhaustive enumeration of arrival subsets and orders for small FEC groups against a reference model, seeded channel faults beyond", "DESIGN.md 8/C07")
+check("C16", "exploration",
+      "Seeded search over (sender ratio, receiver ratio) pairs, starting ids and phases, and loss/duplication/reordering patterns before convergence - including the targeted pattern that hides every contradicting packet from the receiver - with the real encoder, decoder and auto-tuner: convergence to the sender's ratio within the stated run length, recovery from then on, stability under matching ratios, and at session level an intact stream under mismatch.",
+      TB + " One recorded finding (known_findings.txt): fabricated segments can enter the stream before convergence.",
+      "deterministic simulation with fault injection: seeded ratio-mismatch search at codec and session level, convergence/stability/soundness oracles", "DESIGN.md 8/C16")
+
 NOTYET = "check not built yet in this session (work in progress; see DESIGN.md section 8 for the design)"
 for p in props:
     if p["id"] not in CHECKS:
